@@ -125,7 +125,15 @@ Fixpoint first_diff (c : cfg) (steps : list (opx * obs)) (p : pool) (i : N) : N 
   | [] => 0
   | (o, b) :: r =>
     if b_hang b || b_panic b then i
-    else let '(p', ret) := model_op c o (b_gone b) p in
+    else (* equal fee priorities: container/heap may pop any minimal candidate; the ids that disappeared do not always say
+            which one was the eviction victim (an Add can drop two), so every single disappeared id is tried as the choice *)
+         let try_ ch := let '(q, rt) := model_op c o ch p in
+                        if Bool.eqb rt (b_ret b) && (b_skip b || snap_eqb (project q) (b_snap b)) then Some (q, rt) else None in
+         let '(p', ret) := match find (fun ch => match try_ ch with Some _ => true | None => false end)
+                                       (b_gone b :: map (fun g => [g]) (b_gone b)) with
+                           | Some ch => model_op c o ch p
+                           | None => model_op c o (b_gone b) p
+                           end in
          (* a finish must have driven every reorg goroutine to its end (fuel exhaustion is a difference, not a state) *)
          let done := match o with XFinish _ => is_nil (pending p') | _ => true end in
          if done && Bool.eqb ret (b_ret b) && (b_skip b || snap_eqb (project p') (b_snap b)) then first_diff c r p' (i + 1) else i
@@ -145,15 +153,17 @@ Definition repl_ok (c : cfg) (table : list (N * tx)) (prev_all : list N) (o : op
   | _ => true
   end.
 
-Fixpoint first_bad_from (c : cfg) (table : list (N * tx)) (prev_all : list N) (steps : list (opx * obs)) (i : N) : N :=
+(* [known]: prev_all is the state right before this operation (false after an overlapped, unobserved step: the parked
+   operation may legitimately have evicted the slot's occupant in between, so the transition clause is not applicable) *)
+Fixpoint first_bad_from (c : cfg) (table : list (N * tx)) (prev_all : list N) (known : bool) (steps : list (opx * obs)) (i : N) : N :=
   match steps with
   | [] => 0
   | (o, b) :: r =>
-    if obs_ok c table b && (b_skip b || repl_ok c table prev_all o (s_all (b_snap b)))
-    then first_bad_from c table (if b_skip b then prev_all else s_all (b_snap b)) r (i + 1) else i
+    if obs_ok c table b && (b_skip b || negb known || repl_ok c table prev_all o (s_all (b_snap b)))
+    then first_bad_from c table (if b_skip b then prev_all else s_all (b_snap b)) (negb (b_skip b)) r (i + 1) else i
   end.
 Definition first_bad (c : cfg) (table : list (N * tx)) (steps : list (opx * obs)) (i : N) : N :=
-  first_bad_from c table [] steps i.
+  first_bad_from c table [] true steps i.
 
 Definition check_seq (k : seq_case) : N :=
   let '(c, steps) := k in
